@@ -661,4 +661,394 @@ theorem findRoute_some (ps : List Pat) (sch : Option Bytes) (path : Bytes) (i : 
         obtain ⟨q, hq, hm⟩ := ih r.1 hf
         exact ⟨q, by simpa using hq, hm⟩
 
+/-! ### inversion at the level of `Pat` -/
+
+/-- `PatWF` (decidable), the part the inversion needs: at least one segment, literals free of `/`, parameter names
+that percent-decoding leaves alone (`apply` looks a name up raw, `unapply` reports it decoded) and that are
+pairwise different. Everything except name normality is guaranteed by `RoutePattern::parse`. -/
+def Pat.rtWf (p : Pat) : Bool := !p.segs.isEmpty && p.segs.all Seg.rtOk && nodupB p.params
+
+/-- The map binds every parameter of the pattern to a non-empty string. -/
+def Pat.boundBy (p : Pat) (m : KV) : Bool := p.segs.all (Seg.bound m)
+
+theorem nodupB_nodup (xs : List Bytes) (h : nodupB xs = true) : xs.Nodup := by
+  induction xs with
+  | nil => exact List.nodup_nil
+  | cons x rest ih =>
+    simp only [nodupB, Bool.and_eq_true, Bool.not_eq_eq_eq_not, Bool.not_true] at h
+    rw [List.nodup_cons]
+    refine ⟨?_, ih h.2⟩
+    intro hin
+    simp only [List.contains_eq_mem, decide_eq_false_iff_not, decide_eq_true_eq] at h
+    exact h.1 hin
+
+/-- The path that `apply` writes. -/
+def Pat.pathOf (p : Pat) (m : KV) : Bytes := joinParts p.absolute true (p.segs.map (partOf m))
+
+theorem unapply_apply_core (p : Pat) (m : KV) (hwf : p.rtWf = true) (hb : p.boundBy m = true) :
+    p.apply m = .ok (schemePrefix p.scheme ++ p.pathOf m) ∧
+      ∀ sch, sch = p.scheme ∨ sch = none →
+        p.unapplyUri sch (p.pathOf m) = some (p.params.map fun n => (n, valOf m n)) := by
+  simp only [Pat.rtWf, Bool.and_eq_true, Bool.not_eq_eq_eq_not, Bool.not_true, List.all_eq_true] at hwf
+  simp only [Pat.boundBy, List.all_eq_true] at hb
+  obtain ⟨⟨hne, hw⟩, hnd⟩ := hwf
+  have hnd' : (segParams p.segs).Nodup := nodupB_nodup _ hnd
+  have happ := applySegs_bound m p.absolute p.segs true hb
+  unfold Pat.pathOf
+  refine ⟨?_, ?_⟩
+  · simp [Pat.apply, happ]
+  · intro sch hsch
+    have hclash : schemeClash p.scheme sch = false := by
+      rcases hsch with rfl | rfl
+      · cases p.scheme <;> simp [schemeClash]
+      · cases p.scheme <;> simp [schemeClash]
+    have hun := unapplyParts_applied m p.segs [] hw hb
+    rw [insAll_nodup m p.segs [] hnd' (by simp)] at hun
+    have hslash : ∀ y ∈ p.segs.map (partOf m), ∀ b ∈ y, b ≠ 47 := by
+      intro y hy
+      simp only [List.mem_map] at hy
+      obtain ⟨s, hs, rfl⟩ := hy
+      exact partOf_no_slash m s (hw s hs)
+    have hparams : segParams p.segs = p.params := rfl
+    rw [hparams] at hun
+    have hmapne : p.segs.map (partOf m) ≠ [] := by
+      intro h0; simp at h0; simp [h0] at hne
+    generalize p.segs.map (partOf m) = parts at hun hslash hmapne
+    cases parts with
+    | nil => exact absurd rfl hmapne
+    | cons x xs =>
+      unfold Pat.unapplyUri
+      simp only [hclash, Bool.false_eq_true, ↓reduceIte]
+      cases habs : p.absolute with
+      | true =>
+        simp only [↓reduceIte]
+        rw [splitSlash_join_abs _ _ hslash]
+        simpa using hun
+      | false =>
+        simp only [Bool.false_eq_true, ↓reduceIte]
+        rw [splitSlash_join_rel _ _ hslash]
+        simpa using hun
+
+/-! ### the `RouteUri` parser on a rendered route -/
+
+theorem pathChar_47 : pathChar 47 = false := by decide
+theorem pathChar_37 : pathChar 37 = false := by decide
+theorem schemaChar_58 : schemaChar 58 = false := by decide
+theorem schemaChar_47 : schemaChar 47 = false := by decide
+theorem isAlpha_47 : isAlpha 47 = false := by decide
+theorem isAlpha_37 : isAlpha 37 = false := by decide
+theorem isHex_hexUp : ∀ n, n < 16 → isHex (hexUp n) = true := by decide
+
+theorem eatPath_slash (t : Bytes) : eatPath (47 :: t) = 47 :: t := by
+  rw [eatPath.eq_def]; simp [pathChar_47]
+
+theorem eatPath_path (b : Nat) (t : Bytes) (h : pathChar b = true) : eatPath (b :: t) = eatPath t := by
+  rw [eatPath.eq_def]; simp [h]
+
+theorem eatPath_esc (h l : Nat) (t : Bytes) (hh : isHex h = true) (hl : isHex l = true) :
+    eatPath (37 :: h :: l :: t) = eatPath t := by
+  rw [eatPath.eq_def]; simp [pathChar_37, hh, hl]
+
+/-- A fully accepted prefix is skipped. -/
+theorem eatPath_append (x t : Bytes) (hx : eatPath x = []) : eatPath (x ++ t) = eatPath t := by
+  fun_induction eatPath x
+  case case1 => rfl
+  case case2 b tl hb ih => simp only [List.cons_append]; rw [eatPath_path _ _ hb]; exact ih hx
+  case case3 h l rest hhl hb ih =>
+    simp only [Bool.and_eq_true] at hhl
+    simp only [List.cons_append]; rw [eatPath_esc _ _ _ hhl.1 hhl.2]; exact ih hx
+  case case4 => simp at hx
+  case case5 => simp at hx
+
+
+/-- Bytes that survive `apply` + the URI parser: escaped by `apply`, or accepted raw by `is_path_char`. -/
+def uriSafe (v : Bytes) : Bool := v.all fun b => shouldEncode b || pathChar b
+
+theorem eatPath_encByte (b : Nat) (t : Bytes) (hb : b < 256) (hs : (shouldEncode b || pathChar b) = true) :
+    eatPath (encByte b ++ t) = eatPath t := by
+  unfold encByte
+  split
+  · simp only [List.cons_append, List.nil_append]
+    exact eatPath_esc _ _ _ (isHex_hexUp _ (by omega)) (isHex_hexUp _ (by omega))
+  · rename_i hne
+    simp only [hne, Bool.false_or] at hs
+    simp only [List.cons_append, List.nil_append]
+    exact eatPath_path _ _ hs
+
+theorem eatPath_pctEncode (v t : Bytes) (hb : ∀ b ∈ v, b < 256) (hs : uriSafe v = true) :
+    eatPath (pctEncode v ++ t) = eatPath t := by
+  induction v with
+  | nil => rfl
+  | cons b rest ih =>
+    simp only [uriSafe, List.all_cons, Bool.and_eq_true] at hs
+    simp only [pctEncode, List.append_assoc]
+    rw [eatPath_encByte b _ (hb b (by simp)) hs.1]
+    exact ih (fun c hc => hb c (by simp [hc])) (by simpa [uriSafe] using hs.2)
+
+theorem segOk_pctEncode (v : Bytes) (hb : ∀ b ∈ v, b < 256) (hs : uriSafe v = true) : segOk (pctEncode v) = true := by
+  have := eatPath_pctEncode v [] hb hs
+  simp only [List.append_nil] at this
+  simp [segOk, this, eatPath]
+
+/-- `joinParts _ false xs` is empty or starts with `/`: `path_char` stops there. -/
+theorem eatPath_join_false (absolute : Bool) (xs : List Bytes) :
+    eatPath (joinParts absolute false xs) = joinParts absolute false xs := by
+  cases xs with
+  | nil => rfl
+  | cons x xs => simp [joinParts, eatPath_slash]
+
+theorem join_false_length (absolute : Bool) (xs : List Bytes) :
+    xs.length ≤ (joinParts absolute false xs).length := by
+  induction xs with
+  | nil => simp [joinParts]
+  | cons x xs ih => simp [joinParts]; omega
+
+theorem eatMoreSegs_join (absolute : Bool) (xs : List Bytes) (fuel : Nat) (hf : xs.length ≤ fuel)
+    (hx : ∀ x ∈ xs, segOk x = true) : eatMoreSegs fuel (joinParts absolute false xs) = [] := by
+  induction xs generalizing fuel with
+  | nil => cases fuel <;> simp [eatMoreSegs, joinParts]
+  | cons x xs ih =>
+    cases fuel with
+    | zero => simp at hf
+    | succ fuel =>
+      have hxo : eatPath x = [] := by simpa [segOk] using hx x (by simp)
+      simp only [joinParts, Bool.not_false, Bool.true_or, ↓reduceIte, List.cons_append, List.nil_append,
+        List.append_assoc, eatMoreSegs]
+      rw [eatPath_append x _ hxo, eatPath_join_false]
+      exact ih fuel (by simpa using hf) (fun y hy => hx y (by simp [hy]))
+
+theorem eatPathSegments_join (absolute : Bool) (x : Bytes) (xs : List Bytes) (hne : x ≠ [])
+    (hx : ∀ y ∈ x :: xs, segOk y = true) :
+    eatPathSegments (x ++ joinParts absolute false xs) = some [] := by
+  have hxo : eatPath x = [] := by simpa [segOk] using hx x (by simp)
+  unfold eatPathSegments
+  simp only
+  rw [eatPath_append x _ hxo, eatPath_join_false]
+  have hlen : (joinParts absolute false xs).length < (x ++ joinParts absolute false xs).length := by
+    cases x with
+    | nil => exact absurd rfl hne
+    | cons b tl => simp; omega
+  simp only [hlen, ↓reduceIte]
+  rw [eatMoreSegs_join absolute xs _ (join_false_length absolute xs) (fun y hy => hx y (by simp [hy]))]
+
+theorem eatPathAll_join (absolute : Bool) (x : Bytes) (xs : List Bytes) (hne : x ≠ [])
+    (hx : ∀ y ∈ x :: xs, segOk y = true) (hns : ∀ b ∈ x, b ≠ 47) :
+    eatPathAll (joinParts absolute true (x :: xs)) = some [] := by
+  cases absolute with
+  | true =>
+    simp only [joinParts, Bool.not_true, Bool.or_true, ↓reduceIte, List.cons_append, List.nil_append,
+      List.append_assoc, eatPathAll]
+    rw [eatPathSegments_join true x xs hne hx]
+  | false =>
+    simp only [joinParts, Bool.not_true, Bool.or_false, Bool.false_eq_true, ↓reduceIte, List.nil_append]
+    cases x with
+    | nil => exact absurd rfl hne
+    | cons b tl =>
+      have hb : b ≠ 47 := hns b (by simp)
+      have := eatPathSegments_join false (b :: tl) xs hne hx
+      simp only [List.cons_append] at this ⊢
+      unfold eatPathAll
+      split
+      · rename_i heq; simp at heq; exact absurd heq.1 hb
+      · exact this
+
+
+theorem eatSchema_all (tl rest : Bytes) (h : tl.all schemaChar = true) :
+    eatSchema (tl ++ 58 :: rest) = 58 :: rest := by
+  induction tl with
+  | nil => simp [eatSchema, schemaChar_58]
+  | cons c tl ih =>
+    simp only [List.all_cons, Bool.and_eq_true] at h
+    simp [eatSchema, h.1, ih h.2]
+
+theorem eatScheme_some (b : Nat) (tl rest : Bytes) (hb : isAlpha b = true) (h : tl.all schemaChar = true) :
+    eatScheme (b :: tl ++ 58 :: rest) = some (b :: tl, rest) := by
+  simp only [eatScheme, List.cons_append, hb, ↓reduceIte, eatSchema_all tl rest h]
+  simp
+  have : tl.length + (rest.length + 1) - rest.length = tl.length + 1 := by omega
+  rw [this]
+  simp [List.take_append]
+
+theorem eatSchema_no_colon (tl rest : Bytes) (h : 58 ∉ tl) (hr : rest = [] ∨ ∃ r', rest = 47 :: r') :
+    ∀ after, eatSchema (tl ++ rest) ≠ 58 :: after := by
+  induction tl with
+  | nil =>
+    intro after
+    rcases hr with rfl | ⟨r', rfl⟩
+    · simp [eatSchema]
+    · simp [eatSchema, schemaChar_47]
+  | cons c tl ih =>
+    intro after
+    have hc : c ≠ 58 := fun e => h (by simp [e])
+    have ih' := ih (fun e => h (by simp [e]))
+    simp only [List.cons_append, eatSchema]
+    split
+    · exact ih' after
+    · simp [hc]
+
+theorem eatScheme_none (b : Nat) (tl rest : Bytes) (h : isAlpha b = false ∨ 58 ∉ tl)
+    (hr : rest = [] ∨ ∃ r', rest = 47 :: r') : eatScheme (b :: tl ++ rest) = none := by
+  simp only [eatScheme, List.cons_append]
+  split
+  · rename_i hb
+    rcases h with h | h
+    · simp [h] at hb
+    · have := eatSchema_no_colon tl rest h hr
+      split
+      · rename_i after heq; exact absurd heq (this after)
+      · rfl
+  · rfl
+
+theorem parseUri_scheme (b : Nat) (tl path : Bytes) (hb : isAlpha b = true) (h : tl.all schemaChar = true)
+    (hp : eatPathAll path = some []) :
+    parseUri (b :: tl ++ 58 :: path) = some ⟨some (b :: tl), path, none, none⟩ := by
+  unfold parseUri
+  simp only [eatScheme_some b tl path hb h, hp]
+  simp
+
+theorem parseUri_noscheme (path : Bytes) (hs : eatScheme path = none) (hp : eatPathAll path = some []) :
+    parseUri path = some ⟨none, path, none, none⟩ := by
+  unfold parseUri
+  simp only [hs, hp]
+  simp
+
+/-! ### `apply` then `unapply_str` -/
+
+theorem hexUp_ne_58 (n : Nat) : hexUp n ≠ 58 := by
+  unfold hexUp; split <;> omega
+
+theorem shouldEncode_58 : shouldEncode 58 = true := by decide
+
+theorem pctEncode_no_colon (v : Bytes) : 58 ∉ pctEncode v := by
+  induction v with
+  | nil => simp [pctEncode]
+  | cons c rest ih =>
+    intro hb
+    simp only [pctEncode, List.mem_append] at hb
+    rcases hb with hb | hb
+    · unfold encByte at hb
+      split at hb
+      · simp at hb
+        rcases hb with hb | hb
+        · exact hexUp_ne_58 _ hb.symm
+        · exact hexUp_ne_58 _ hb.symm
+      · rename_i hne
+        simp at hb
+        subst hb
+        exact hne shouldEncode_58
+    · exact ih hb
+
+theorem pctEncode_ne_nil (v : Bytes) (h : v ≠ []) : pctEncode v ≠ [] := by
+  cases v with
+  | nil => exact absurd rfl h
+  | cons b rest =>
+    simp only [pctEncode, encByte]
+    split <;> simp
+
+/-- Every parameter value is made of bytes that `apply` escapes or the URI parser accepts raw. -/
+def Seg.safeIn (m : KV) : Seg → Bool
+  | .lit _ => true
+  | .param n => uriSafe (valOf m n)
+
+def Pat.safeIn (p : Pat) (m : KV) : Bool := p.segs.all (Seg.safeIn m)
+
+/-- `Pat.wf` (scheme, literals and names acceptable to the URI parser; see `Model/RouteMon.lean`) plus distinct
+names. -/
+def Pat.strWf (p : Pat) : Bool := p.wf && nodupB p.params
+
+theorem strWf_rtWf (p : Pat) (h : p.strWf = true) : p.rtWf = true := by
+  simp only [Pat.strWf, Pat.wf, Bool.and_eq_true, List.all_eq_true, Bool.not_eq_eq_eq_not, Bool.not_true] at h
+  simp only [Pat.rtWf, Bool.and_eq_true, List.all_eq_true, Bool.not_eq_eq_eq_not, Bool.not_true]
+  refine ⟨⟨h.1.1.1.2, ?_⟩, h.2⟩
+  intro s hs
+  have := h.1.1.2 s hs
+  cases s <;> simp_all [Seg.wf, Seg.rtOk]
+
+theorem parseUri_apply (p : Pat) (m : KV) (hwf : p.strWf = true) (hb : p.boundBy m = true)
+    (hsafe : p.safeIn m = true) :
+    parseUri (schemePrefix p.scheme ++ p.pathOf m) = some ⟨p.scheme, p.pathOf m, none, none⟩ := by
+  simp only [Pat.strWf, Pat.wf, Bool.and_eq_true, List.all_eq_true, Bool.not_eq_eq_eq_not, Bool.not_true] at hwf
+  obtain ⟨⟨⟨⟨hsch, hne⟩, hsegs⟩, hfirst⟩, hnd⟩ := hwf
+  simp only [Pat.boundBy, List.all_eq_true] at hb
+  simp only [Pat.safeIn, List.all_eq_true] at hsafe
+  -- every rendered part is accepted in full by `path_segment`, is non-empty and `/`-free
+  have hpart : ∀ s ∈ p.segs, segOk (partOf m s) = true ∧ partOf m s ≠ [] ∧ (∀ b ∈ partOf m s, b ≠ 47) := by
+    intro s hs
+    have hw := hsegs s hs
+    have hbs := hb s hs
+    have hsf := hsafe s hs
+    cases s with
+    | lit l =>
+      simp only [Seg.wf, Bool.and_eq_true, Bool.not_eq_eq_eq_not, Bool.not_true] at hw
+      refine ⟨hw.2, ?_, ?_⟩
+      · intro h0; simp [partOf] at h0; simp [h0] at hw
+      · exact partOf_no_slash m _ (by simpa [Seg.rtOk] using hw.1.2)
+    | param n =>
+      simp only [Seg.bound] at hbs
+      cases hg : kvGet n m with
+      | none => simp [hg] at hbs
+      | some v =>
+        simp only [hg, Bool.and_eq_true, Bool.not_eq_eq_eq_not, Bool.not_true, List.all_eq_true,
+          decide_eq_true_eq] at hbs
+        have hv : valOf m n = v := by simp [valOf, hg]
+        simp only [Seg.safeIn, hv] at hsf
+        simp only [partOf, hv]
+        refine ⟨segOk_pctEncode v hbs.2 hsf, pctEncode_ne_nil v ?_, pctEncode_no_slash v⟩
+        intro h0; simp [h0] at hbs
+  cases hsg : p.segs with
+  | nil => simp [hsg] at hne
+  | cons s ss =>
+    have hx := hpart s (by simp [hsg])
+    have hall : ∀ y ∈ partOf m s :: ss.map (partOf m), segOk y = true := by
+      intro y hy
+      simp only [List.mem_cons, List.mem_map] at hy
+      rcases hy with rfl | ⟨t, ht, rfl⟩
+      · exact hx.1
+      · exact (hpart t (by simp [hsg, ht])).1
+    have hpath : eatPathAll (p.pathOf m) = some [] := by
+      simp only [Pat.pathOf, hsg, List.map_cons]
+      exact eatPathAll_join p.absolute _ _ hx.2.1 hall hx.2.2
+    cases hs : p.scheme with
+    | some sc =>
+      rw [hs] at hsch
+      cases sc with
+      | nil => simp [schemeOk] at hsch
+      | cons b tl =>
+        simp only [schemeOk, Bool.and_eq_true] at hsch
+        have := parseUri_scheme b tl (p.pathOf m) hsch.1 hsch.2 hpath
+        simpa [schemePrefix] using this
+    | none =>
+      simp only [schemePrefix, List.nil_append]
+      apply parseUri_noscheme _ _ hpath
+      simp only [Pat.pathOf, hsg, List.map_cons]
+      cases habs : p.absolute with
+      | true =>
+        simp [joinParts, eatScheme, isAlpha_47]
+      | false =>
+        simp only [joinParts, Bool.not_true, Bool.or_false, Bool.false_eq_true, ↓reduceIte, List.nil_append]
+        have hrest : joinParts false false (ss.map (partOf m)) = [] ∨
+            ∃ r', joinParts false false (ss.map (partOf m)) = 47 :: r' := by
+          cases ss.map (partOf m) with
+          | nil => exact Or.inl rfl
+          | cons y ys => exact Or.inr ⟨y ++ joinParts false false ys, by simp [joinParts]⟩
+        cases hpo : partOf m s with
+        | nil => exact absurd hpo hx.2.1
+        | cons b tl =>
+          apply eatScheme_none b tl _ _ hrest
+          cases s with
+          | lit l =>
+            simp only [partOf] at hpo
+            subst hpo
+            simp only [firstLitOk, hs, habs, hsg] at hfirst
+            simp only [Bool.or_eq_true, Bool.not_eq_eq_eq_not, Bool.not_true] at hfirst
+            rcases hfirst with h | h
+            · exact Or.inl h
+            · exact Or.inr (by simpa using h)
+          | param n =>
+            right
+            have := pctEncode_no_colon (valOf m n)
+            simp only [partOf] at hpo
+            rw [hpo] at this
+            intro hin; exact this (by simp [hin])
+
 end SwimVerif.Route
